@@ -1,6 +1,7 @@
 package rules
 
 import (
+	"go/constant"
 	"os"
 	"fmt"
 	"go/token"
@@ -734,6 +735,9 @@ func notFoundFact(ff *core.FuncFacts, atoms []*core.Atom, lookup ssa.CallInstruc
 func loopPreference(P *core.Program, ff *core.FuncFacts, lookup, anyCall ssa.CallInstruction, want []string) ([]string, bool) {
 	args := lookup.Common().Args
 	srcs, ok := constStringSymbols(ff, args[len(args)-1])
+	if os.Getenv("ELYSLINT_POLY_DEBUG") != "" {
+		fmt.Fprintf(os.Stderr, "c16 pref: arg=%T %v srcs=%v ok=%v\n", ff.Fwd(args[len(args)-1]), ff.Fwd(args[len(args)-1]), srcs, ok)
+	}
 	labels := append(append([]string{}, srcs...), "any")
 	if !ok || len(labels) != len(want) {
 		return labels, false
@@ -787,6 +791,73 @@ func loopPreference(P *core.Program, ff *core.FuncFacts, lookup, anyCall ssa.Cal
 // constStringSymbols: like constStrings but names each element the way symbolOf does
 // (package-level variables by name), in list order.
 func constStringSymbols(ff *core.FuncFacts, v ssa.Value) ([]string, bool) {
+	// range over a package-level *array*: the array is copied and indexed by value
+	if ix, ok := ff.Fwd(v).(*ssa.Index); ok {
+		if bo, ok := ff.Fwd(ix.Index).(*ssa.BinOp); !ok || bo.Op != token.ADD {
+			return nil, false
+		}
+		ld, ok := ff.Fwd(ix.X).(*ssa.UnOp)
+		if !ok || ld.Op != token.MUL {
+			return nil, false
+		}
+		g, ok := ld.X.(*ssa.Global)
+		if !ok {
+			return nil, false
+		}
+		iv := ff.GlobalInit(g)
+		if os.Getenv("ELYSLINT_POLY_DEBUG") != "" {
+			fmt.Fprintf(os.Stderr, "c16 pref: global %s init=%v\n", g.Name(), iv)
+		}
+		if iv == nil {
+			// element-wise initialisation straight into the global
+			if els, initFn := globalArrayElems(g); els != nil {
+				iff := ff.P.Facts(initFn)
+				var out []string
+				for _, e := range els {
+					out = append(out, symbolOf(iff, e))
+				}
+				return out, true
+			}
+		}
+		if iv == nil || iv.Parent() == nil {
+			return nil, false
+		}
+		al, ok := iv.(*ssa.UnOp)
+		if !ok {
+			return nil, false
+		}
+		arr, ok := al.X.(*ssa.Alloc)
+		if !ok || arr.Referrers() == nil {
+			return nil, false
+		}
+		iff := ff.P.Facts(iv.Parent())
+		byIdx := map[int64]ssa.Value{}
+		for _, r := range *arr.Referrers() {
+			ia, ok := r.(*ssa.IndexAddr)
+			if !ok || ia.Referrers() == nil {
+				continue
+			}
+			c, ok := ia.Index.(*ssa.Const)
+			if !ok {
+				return nil, false
+			}
+			i, _ := constant.Int64Val(c.Value)
+			for _, rr := range *ia.Referrers() {
+				if st, ok := rr.(*ssa.Store); ok && st.Addr == ssa.Value(ia) {
+					byIdx[i] = st.Val
+				}
+			}
+		}
+		var out []string
+		for i := int64(0); i < int64(len(byIdx)); i++ {
+			e, ok := byIdx[i]
+			if !ok {
+				return nil, false
+			}
+			out = append(out, symbolOf(iff, e))
+		}
+		return out, len(out) > 0
+	}
 	u, ok := ff.Fwd(v).(*ssa.UnOp)
 	if !ok || u.Op != token.MUL {
 		return nil, false
@@ -799,6 +870,19 @@ func constStringSymbols(ff *core.FuncFacts, v ssa.Value) ([]string, bool) {
 	ph, ok := ff.Fwd(ia.Index).(*ssa.BinOp)
 	if !ok || ph.Op != token.ADD {
 		return nil, false
+	}
+	var out []string
+	if g, isArr := ia.X.(*ssa.Global); isArr {
+		// a package-level array: its elements are stored one by one in the init function
+		els, initFn := globalArrayElems(g)
+		if els == nil {
+			return nil, false
+		}
+		iff := ff.P.Facts(initFn)
+		for _, e := range els {
+			out = append(out, symbolOf(iff, e))
+		}
+		return out, len(out) > 0
 	}
 	ld, ok := ff.Fwd(ia.X).(*ssa.UnOp)
 	if !ok || ld.Op != token.MUL {
@@ -817,7 +901,6 @@ func constStringSymbols(ff *core.FuncFacts, v ssa.Value) ([]string, bool) {
 	if !ok {
 		return nil, false
 	}
-	var out []string
 	for _, e := range els {
 		out = append(out, symbolOf(iff, e))
 	}
@@ -899,4 +982,51 @@ func checkOracleMsgFieldsApplied(P *core.Program, R *core.Report) {
 	if n == 0 {
 		R.Add("C16-msg-field", "x/oracle/keeper", "handlers", "-", false, "no oracle message handler found (anchor changed)")
 	}
+}
+
+// globalArrayElems: the values stored into g[0], g[1], … by the package init function, when
+// every element store is there and nowhere else.
+func globalArrayElems(g *ssa.Global) ([]ssa.Value, *ssa.Function) {
+	if g.Pkg == nil {
+		return nil, nil
+	}
+	byIdx := map[int64]ssa.Value{}
+	var initFn *ssa.Function
+	for _, m := range g.Pkg.Members {
+		fn, ok := m.(*ssa.Function)
+		if !ok {
+			continue
+		}
+		for _, b := range fn.Blocks {
+			for _, in := range b.Instrs {
+				st, ok := in.(*ssa.Store)
+				if !ok {
+					continue
+				}
+				ia, ok := st.Addr.(*ssa.IndexAddr)
+				if !ok || ia.X != ssa.Value(g) {
+					continue
+				}
+				c, ok := ia.Index.(*ssa.Const)
+				if !ok || fn.Name() != "init" {
+					return nil, nil
+				}
+				i, _ := constant.Int64Val(c.Value)
+				byIdx[i] = st.Val
+				initFn = fn
+			}
+		}
+	}
+	var out []ssa.Value
+	for i := int64(0); i < int64(len(byIdx)); i++ {
+		v, ok := byIdx[i]
+		if !ok {
+			return nil, nil
+		}
+		out = append(out, v)
+	}
+	if len(out) == 0 {
+		return nil, nil
+	}
+	return out, initFn
 }
